@@ -92,3 +92,22 @@ Theorem C07_wrapper_regenerated :
 Proof. exact @type_single_gen_eq_leaf. Qed.
 
 Print Assumptions C07_wrapper_regenerated.
+
+(* ------------------------------------------------------------------------------------------------------------
+   Extension (store round): TxnType._store_results and the BlockTransactionContext objects / accessors are REGENERATED
+   (tools/translate_store.py -> Gen/StoreGen.v).  Lemmas/StoreGenLemmas.v: after the regenerated store every slot (b, fam)
+   holds as transaction_types the solver result of ITS OWN key key_of_fam "TransactionType" fam; nothing else changes. *)
+From Tealer Require Import GraphGen SolverGen RunGen StoreGen RunGenLemmas StoreGenLemmas.
+
+Theorem C07_store_results_regenerated :
+  forall (f : func) (d : gdict (list string)) (t : state ctxobj),
+    (forall b, In b (function_blocks f) -> exists c, lookup ctxobj t b = Some c /\ ctx_shape c) ->
+    (forall b fam, In b (function_blocks f) -> In fam all_fams -> bc_get d (key_of_fam "TransactionType" fam) b <> None) ->
+    exists t', type_store_results_gen f d t = Some t' /\
+      (forall b, ~ In b (function_blocks f) -> lookup ctxobj t' b = lookup ctxobj t b) /\
+      (forall b c, lookup ctxobj t b = Some c -> ctx_shape c -> exists c', lookup ctxobj t' b = Some c' /\ ctx_shape c') /\
+      (forall b, In b (function_blocks f) -> forall fam, In fam all_fams -> exists v o,
+         bc_get d (key_of_fam "TransactionType" fam) b = Some v /\ read_slot t b fam = Some o /\ read_slot t' b fam = Some (type_upd v o)).
+Proof. exact @type_store_read_back. Qed.
+
+Print Assumptions C07_store_results_regenerated.
